@@ -94,6 +94,97 @@ def rule_r1(ck, prog, rule='C20.R1', cls='nostd::shared_ptr'):
         break
 
 
+def rule_r1_unique(ck, prog, rule='C20.R1', cls='nostd::unique_ptr'):
+    """who-may-write: outside constructors the stored pointer is overwritten only by reset (which deletes the old object first),
+    release and swap; every assignment overload goes through reset(other.release()) / reset()"""
+    rec_fs = [f for f in prog.funcs.values() if (f.cls or '').startswith('opentelemetry::nostd::unique_ptr') and not f.d.get('lambda')]
+    if not rec_fs:
+        raise AnalysisBroken('nostd::unique_ptr not instantiated in the driver unit')
+    writers = {}
+    for f in rec_fs:
+        if f.kind == 'ctor' or f.kind in ('copyctor', 'movector'):
+            continue
+        for n in f.nodes:
+            if n['k'] == 'binop' and n['op'] == '=' and access_path(f, n['lhs']) == ('this', 'ptr_'):
+                writers.setdefault(f.name, []).append((f, n))
+    bad = {k: v for k, v in writers.items() if k not in ('reset', 'release', 'swap')}
+    for name, lst in sorted(bad.items()):
+        f, n = lst[0]
+        ck.violation(rule, f, 'unique_ptr:ptr-overwritten-only-through-reset@%s(%s)' % (name, (f.params[0]['t'] if f.params else '')[:40]), n,
+                     'unique_ptr::%s overwrites the stored pointer directly: the object the target already owned is never destroyed (leak)' % name)
+    if not bad:
+        ck.holds(rule, rec_fs[0], 'unique_ptr:ptr-overwritten-only-through-reset', None, 'ptr_ is assigned only in %s' % ', '.join(sorted(writers)))
+    # reset deletes before it overwrites
+    for f in [x for x in rec_fs if x.name == 'reset'][:1]:
+        g = Graph(prog, f, inline=None, sync_lambdas=False)
+        ws = [p for p in g.points if p.n is not None and p.n['k'] == 'binop' and p.n['op'] == '=' and access_path(f, p.n['lhs']) == ('this', 'ptr_')]
+        dels = [p for p in g.points if p.n is not None and ((p.n['k'] == 'call' and strip_targs(p.n.get('c', '')).endswith('delete_ptr')) or p.n['k'] in ('CXXDeleteExpr', 'delete'))]
+
+        def null_edge(a, b, lab):
+            if not lab or not isinstance(lab[0], int):
+                return False
+            core, pol = norm_cond(lab[1], lab[0])
+            c = comparison(lab[1], core)
+            if c and c[0] in ('!=', '==') and (access_path(f, c[1]) == ('this', 'ptr_') or access_path(f, c[2]) == ('this', 'ptr_')):
+                return (lab[2] if pol else not lab[2]) is (c[0] == '==')
+            cn = strip_casts(f, core)
+            if cn['k'] == 'member' and cn['name'] == 'ptr_':
+                return (lab[2] if pol else not lab[2]) is False
+            return False
+        ok = bool(ws) and bool(dels) and all(w.id not in g.reachable_from(g.entry, avoid=dels, avoid_edges=null_edge) for w in ws)
+        ck.verdict(ok, rule, f, 'unique_ptr:reset-deletes-old', ws[0].n if ws else None, 'reset overwrites ptr_ only after delete (or on the null edge)' if ok else
+                   'unique_ptr::reset can overwrite a non-null pointer without deleting the old object')
+    # every assignment overload instantiated in the driver
+    n_as = 0
+    for f in sorted([x for x in rec_fs if x.name == 'operator='], key=lambda x: x.key):
+        n_as += 1
+        resets = [n for n in f.nodes if n['k'] == 'call' and strip_targs(n.get('c', '')).endswith('unique_ptr::reset')]
+        site = 'unique_ptr:assign(%s)' % (f.params[0]['t'].replace('opentelemetry::', '')[:48] if f.params else '')
+        if f.params and 'nullptr' in f.params[0]['t']:
+            ok = len(resets) == 1
+        else:
+            ok = len(resets) == 1 and any(f.nodes[i]['k'] == 'call' and strip_targs(f.nodes[i].get('c', '')).endswith('unique_ptr::release') and
+                                          strip_casts(f, f.nodes[i]['obj']).get('id') == f.params[0]['id'] for i in f.subtree(resets[0]['args'][0]))
+        ck.verdict(ok, rule, f, site, resets[0] if resets else None, 'reset(other.release())' if ok else
+                   'this assignment overload does not transfer ownership as reset(other.release()): the old object leaks or the source keeps the pointer (double delete)')
+    if n_as < 4:
+        raise AnalysisBroken('only %d assignment overloads of nostd::unique_ptr are instantiated in the driver unit (4 expected)' % n_as)
+
+
+def rule_r5(ck, prog, rule='C20.R5'):
+    """std::hash<nostd::string_view> is a function of the characters only: every return is std::hash<std::string> of the string
+    built from (data(), size()) - a special case on data() separates views that compare equal"""
+    fs = [f for f in prog.funcs.values() if f.name == 'operator()' and 'hash<opentelemetry::nostd::string_view>' in f.key.replace(' ', '')]
+    if not fs:
+        raise AnalysisBroken('std::hash<nostd::string_view>::operator() not found')
+    f = fs[0]
+    g = Graph(prog, f, inline=None, sync_lambdas=False)
+    rd = reaching_defs(g)
+    bad = None
+    for r in g.returns():
+        e = strip_casts(f, r.n['e'])
+        srcs = origins(g, rd, f, r.n['e'], r.ctx)
+        hashed = [sn for (sf, sn, sc) in srcs if sn['k'] == 'call' and strip_targs(sn.get('c', '')).startswith('std::hash') and sn.get('op') == '()']
+        if not hashed or len(srcs) != len(hashed):
+            bad = (r, 'a return value that is not the hash of the characters (e.g. a constant for a null data pointer)')
+            continue
+        h = hashed[0]
+        names = set()
+        for (sf, sn, sc) in origins(g, rd, f, h['args'][0], r.ctx):
+            for j in sf.subtree(sn['i']):
+                m = sf.nodes[j]
+                if m['k'] == 'call':
+                    names.add(strip_targs(m.get('c', '')).rsplit('::', 1)[-1])
+        if not {'data', 'size'} <= names:
+            bad = (r, 'the hashed string is not built from (data(), size())')
+    conds = [n for n in f.nodes if n['k'] in ('if', 'cond', 'SwitchStmt')]
+    if bad is None and conds:
+        bad = (g.returns()[0], 'the hash branches on a property of the view other than its characters')
+    ck.verdict(bad is None, rule, f, 'hash-is-function-of-characters', bad[0].n if bad else None,
+               'hash(view) = std::hash<std::string>(string(data, size)) on every path' if bad is None else
+               'std::hash<nostd::string_view> has %s: views that compare equal (all empty views do) hash differently, unordered containers keyed by views lose entries' % bad[1])
+
+
 WIT = re.compile(r'static_assert\(')
 
 
@@ -227,14 +318,17 @@ def rule_r4(ck, prog, rule='C20.R4'):
 
 
 def run(ck, prog):
-    ck.doc('C20.R1', 'assignment typestate: object-identity guard, source taken before release, unique_ptr transfer', 5)
-    ck.doc('C20.R2', 'type-level witnesses (static_assert unit compiled with the build flags)', 20)
+    ck.doc('C20.R1', 'assignment typestate: object-identity guard, source taken before release; unique_ptr: ptr_ written only through reset/release/swap, reset deletes first, every assignment overload', 11)
+    ck.doc('C20.R2', 'type-level witnesses (static_assert unit compiled with the build flags)', 22)
     ck.doc('C20.R3', 'string_view equality cannot hold for different lengths; compare falls back to sizes', 2)
     ck.doc('C20.R4', 'substr / find guards and offsets', 4)
+    ck.doc('C20.R5', 'std::hash<nostd::string_view> depends on the characters only', 1)
     with ck.canary('C20.R1'):
         rule_r1(ck, prog, cls='canary::c20::bad_ptr')
     rule_r1(ck, prog)
+    rule_r1_unique(ck, prog)
     rule_r2(ck, prog)
     rule_r3(ck, prog)
     rule_r4(ck, prog)
+    rule_r5(ck, prog)
     return {}
